@@ -47,6 +47,13 @@ MUST_REFUTE = {
     # (TLC must find a history with equal-but-not-identical subtrees on which the
     # memoizing algorithm differs from the same handlers without a table)
     "C05_Gen_Buggy_RebuildDropsScope": "RebuildTransparent",
+    # round 7: the hit test asks the stored RESULT whether it is None / true: results that
+    # look like nothing (None, 0, False, ()) are recomputed - in CachedMapper.__call__ and
+    # in the look-aside that inline_cache writes around a former rec site
+    "C05_Gen_Buggy_HitNotNone": "NoComputedTwice",
+    "C05_Gen_Buggy_HitByTruth": "NoComputedTwice",
+    "C05_OptGen_Buggy_InlineHitNotNone": "Explained",
+    "C05_OptGen_Buggy_InlineHitTruthy": "Explained",
     "C05_Gen_real_types": "NotSharedTypes",        # Dev_CompositeKeyPyEq (finding F1)
     "C05_OptGen_findings": "PlainlyAccepted",      # the optimizer's named deviations
 }
@@ -173,11 +180,13 @@ def _model_stage(tier, seed, out):
     opt_cfgs = {"quick": [("C05_OptGen", "C05_OptGen_quick1", {}),
                           ("C05_OptGen", "C05_OptGen_quick2", {}),
                           ("C05_OptGen", "C05_OptGen_alias_quick", {}),
-                          ("C05_OptGen", "C05_OptGen_fb", {})],
+                          ("C05_OptGen", "C05_OptGen_fb", {}),
+                          ("C05_OptGen", "C05_OptGen_nil", {})],
                 "thorough": [("C05_OptGen", "C05_OptGen_thorough1", {}),
                              ("C05_OptGen", "C05_OptGen_thorough2", {}),
                              ("C05_OptGen", "C05_OptGen_alias_thorough", {}),
-                             ("C05_OptGen", "C05_OptGen_fb", {})]}[tier]
+                             ("C05_OptGen", "C05_OptGen_fb", {}),
+                             ("C05_OptGen", "C05_OptGen_nil", {})]}[tier]
     ctl = ([("C05_Gen", c, {}) for c in MUST_HOLD]
            + [("C05_OptGen" if c.startswith("C05_OptGen") else "C05_Gen", c, {})
               for c in MUST_REFUTE])
